@@ -44,7 +44,7 @@ CHECKS["C07"] = dict(
 )
 CHECKS["C09"] = dict(
     cat="exploration", ref="DESIGN.md §3 C09",
-    technique="bounded-exhaustive enumeration of gitignore pattern lists (all lists of length <=2 over a 41-pattern pool, triples over sub-pools) x 44 path spellings on a feature-complete tree, against `git check-ignore --no-index` run in batch",
+    technique="bounded-exhaustive enumeration of gitignore pattern lists (all lists of length <=2 over a 41-pattern pool, triples over sub-pools) x 44+ path spellings on a feature-complete tree (and a code base made of two of its directories), against `git check-ignore --no-index` run in batch",
     text="For every enumerated pattern list, `path in CodeBase` for every spelling (absolute, relative, '..', through file and directory links, dangling, outside) and list(CodeBase) must equal: existing regular file, recognised extension, under the root, not ignored by git on the resolved root-relative path.",
     note="git 2.39 is the pattern oracle; one recorded third-party finding (pathspec re-inclusion below an excluded directory) attributed by predicate.",
 )
